@@ -107,7 +107,12 @@ def engine_level(ctx):
             # ---- oracle: both roles hash identical bytes = the RFC input; same (K, H); client completes
             hc, hs = hashed_inputs(ctext), hashed_inputs(stext)
             kc, ks_ = khs(ctext), khs(stext)
-            vals = engine_values(c, s, ctext, stext)
+            try:
+                vals = engine_values(c, s, ctext, stext)
+            except Exception as ex:  # messages of an unexpected shape: reported, never a harness crash
+                ctx.fail("honest-exchange-malformed-messages:" + L.family(c),
+                         {"engine": eng, "client": L.sc_json(c), "server": L.sc_json(s)}, repr(ex))
+                continue
             ctx.case(("honest", eng, old, c["x"], s["x"], tuple(c["pkts"])), True)
             ctx.dist("honest:" + eng + (":old" if old else ""))
             case = {"engine": eng, "old": old, "client": L.sc_json(c), "server": L.sc_json(s)}
@@ -309,7 +314,11 @@ def e2e_honest(ctx, kex, kind, algo, rekeys):
         if e.tc.host_key_type != algo:
             ctx.disagree("negotiated-host-key-algorithm", case, algo, e.tc.host_key_type)
         # H is the RFC hash of what went over the wire
-        fam, ic, is_, ks, sig, v = e2e_values(e, kex)
+        try:
+            fam, ic, is_, ks, sig, v = e2e_values(e, kex)
+        except Exception as ex:
+            ctx.fail("kex-messages-not-as-specified:" + kex, case, "cannot read the exchange off the wire: %r" % ex)
+            return
         vc = e.mitm.banner["c2s"].rstrip(b"\r\n")
         vs = e.mitm.banner["s2c"].rstrip(b"\r\n")
         ref = ref_input("nist" if fam == "ec" else fam, vc, vs, ic, is_, ks, K=lc[0][0], **v)
